@@ -342,8 +342,10 @@ fn run_history(
         else { rng.range(10, 18) } as usize;
     let mut cfg = WorldCfg::new(args.work.join(format!("h{idx}")));
     cfg.aggregate = agg;
-    // the random part may move CAs to a second publication server and back
-    cfg.allow_remote = true;
+    // Moves to the second publication server are scripted only (scripts 5
+    // and 6); random moves were withdrawn together with C01's (DESIGN
+    // section 10).
+    cfg.allow_remote = false;
     let mut script = if chain { hist::chain_forest() }
         else { hist::standard_forest(true) };
     let n_setup = script.len();
